@@ -81,6 +81,7 @@ func (r *ring) allHosts() []*HostInfo {
 		hosts = append(hosts, host)
 	}
 	r.mu.RUnlock()
+	verifOrderHosts(hosts)
 	return hosts
 }
 
